@@ -1,0 +1,135 @@
+//! Verification hooks (cargo feature `verif`).
+//!
+//! This module adds no behaviour. It re-exports crate-private items (verification tasks,
+//! simplification portfolios, equivalence breaking) as plain data so that an external
+//! conformance harness can observe what `anthem verify` and `anthem simplify` compute.
+use {
+    crate::{
+        command_line::arguments::{Decomposition, FormulaRepresentation},
+        simplifying::fol::sigma_0::{classic::CLASSIC, ht::HT, intuitionistic::INTUITIONISTIC},
+        syntax_tree::{asp::mini_gringo as asp, fol::sigma_0 as fol},
+        verifying::{
+            problem::{Problem, Role},
+            task::{
+                Task, external_equivalence::ExternalEquivalenceTask,
+                strong_equivalence::StrongEquivalenceTask,
+            },
+        },
+    },
+    either::Either,
+};
+
+/// One emitted problem: its name, its annotated formulas and the exact text that
+/// `--save-problems` writes and that is piped to the prover.
+pub struct ProblemData {
+    pub name: String,
+    /// (formula name, is_conjecture, formula)
+    pub formulas: Vec<(String, bool, fol::Formula)>,
+    pub text: String,
+}
+
+fn data(problems: Vec<Problem>) -> Vec<ProblemData> {
+    problems
+        .into_iter()
+        .map(|p| ProblemData {
+            name: p.name.clone(),
+            text: p.to_string(),
+            formulas: p
+                .formulas
+                .into_iter()
+                .map(|f| (f.name, f.role == Role::Conjecture, f.formula))
+                .collect(),
+        })
+        .collect()
+}
+
+#[derive(Clone, Copy, Debug)]
+pub struct Flags {
+    pub sequential: bool,
+    pub direction: fol::Direction,
+    pub mu: bool,
+    pub bypass_tightness: bool,
+    pub simplify: bool,
+    pub break_equivalences: bool,
+}
+
+impl Flags {
+    fn decomposition(&self) -> Decomposition {
+        if self.sequential {
+            Decomposition::Sequential
+        } else {
+            Decomposition::Independent
+        }
+    }
+
+    fn formula_representation(&self) -> FormulaRepresentation {
+        if self.mu {
+            FormulaRepresentation::Mu
+        } else {
+            FormulaRepresentation::TauStar
+        }
+    }
+}
+
+/// `verify --equivalence external`: the emitted problems and the warnings, or the error.
+pub fn external_problems(
+    specification: Either<asp::Program, fol::Specification>,
+    program: asp::Program,
+    user_guide: fol::UserGuide,
+    proof_outline: fol::Specification,
+    flags: Flags,
+) -> Result<(Vec<ProblemData>, Vec<String>), String> {
+    ExternalEquivalenceTask {
+        specification,
+        program,
+        user_guide,
+        proof_outline,
+        decomposition: flags.decomposition(),
+        direction: flags.direction,
+        formula_representation: flags.formula_representation(),
+        bypass_tightness: flags.bypass_tightness,
+        simplify: flags.simplify,
+        break_equivalences: flags.break_equivalences,
+    }
+    .decompose()
+    .map(|w| {
+        (
+            data(w.data),
+            w.warnings.iter().map(|x| x.to_string()).collect(),
+        )
+    })
+    .map_err(|e| format!("{e:?}"))
+}
+
+/// `verify --equivalence strong`: the emitted problems.
+pub fn strong_problems(left: asp::Program, right: asp::Program, flags: Flags) -> Vec<ProblemData> {
+    match (StrongEquivalenceTask {
+        left,
+        right,
+        decomposition: flags.decomposition(),
+        direction: flags.direction,
+        formula_representation: flags.formula_representation(),
+        simplify: flags.simplify,
+        break_equivalences: flags.break_equivalences,
+    })
+    .decompose()
+    {
+        Ok(w) => data(w.data),
+        Err(e) => match e {},
+    }
+}
+
+/// The list of rewrites of a simplification portfolio, composed as in `anthem simplify`.
+pub fn portfolio(name: &str) -> Option<Vec<fn(fol::Formula) -> fol::Formula>> {
+    match name {
+        "intuitionistic" => Some([INTUITIONISTIC].concat()),
+        "ht" => Some([INTUITIONISTIC, HT].concat()),
+        "classic" => Some([INTUITIONISTIC, HT, CLASSIC].concat()),
+        _ => None,
+    }
+}
+
+/// Equivalence breaking as applied to conjectures by `verify`.
+pub fn break_equivalences(formula: fol::Formula) -> Vec<fol::Formula> {
+    crate::breaking::fol::sigma_0::ht::break_equivalences_formula(formula).formulas
+}
